@@ -125,6 +125,11 @@ func c11Gen(tier string, emit func(c11Case)) {
 			emit(c11Case{Kind: "encoded", Strict: strict, Enc: enc, L: 4})
 		}
 	}
+	// StrictLastSlash together with the route cache: '/x' and '/x/' stay different paths whatever was requested before
+	for _, capN := range []int{1, 2, 8} {
+		emit(c11Case{Kind: "strict-cache", Strict: true, L: capN})
+		emit(c11Case{Kind: "strict-cache", Strict: false, L: capN})
+	}
 	for _, strict := range []bool{false, true} {
 		for _, p := range c11GetUni().strs {
 			emit(c11Case{Kind: "square", Strict: strict, P: p, L: 3, Uni: true})
@@ -395,6 +400,47 @@ func c11Run(c c11Case, st *fw.Stats) []fw.Viol {
 				}
 			}
 		}
+	case "strict-cache":
+		defs := []refmodel.RouteDef{{Path: "/u/{id}/", Methods: []string{"GET"}}, {Path: "/u/{id}", Methods: []string{"GET"}}, {Path: "/v/{id}", Methods: []string{"GET"}}, {Path: "/w/{id}/", Methods: []string{"GET"}}}
+		tb, err := refmodel.NewTable(defs, refmodel.Opts{Strict: c.Strict})
+		if err != nil {
+			panic(err)
+		}
+		alphabet := []string{"/u/1/", "/u/1", "/u/2", "/v/1/", "/v/1", "/w/1", "/w/1/", "/w/1//"}
+		var rec func(seq []string)
+		rec = func(seq []string) {
+			if len(seq) > 0 {
+				hr := &hitRec{}
+				opts := append(c11Opts(c.Strict), rux.CachingWithNum(uint16(c.L)))
+				r, pv := buildRouter(defs, hr, opts...)
+				if pv != nil {
+					add("register:panic", fmt.Sprintf("strict=%v: registration panicked: %v", c.Strict, pv))
+					return
+				}
+				for i, p := range seq {
+					st.Evals++
+					want := tb.Resolve("GET", p).Route
+					var got int
+					if pv := try(func() { rt, _, _ := r.Match("GET", p); got = routeIdx(rt) }); pv != nil {
+						add("lookup:panic", fmt.Sprintf("strict=%v cache=%d: history %q: Match(GET,%q) panicked: %v", c.Strict, c.L, seq, p, pv))
+						break
+					}
+					if i == len(seq)-1 {
+						st.Nontrivial++
+						if got != want {
+							add(fmt.Sprintf("strict-cache:route:strict=%v", c.Strict), fmt.Sprintf("StrictLastSlash=%v, route cache of capacity %d, routes [%s]: after the requests %q, GET %q is dispatched to route %d; its normal form %q belongs to route %d", c.Strict, c.L, defsString(defs), seq[:i], p, got, refmodel.Norm(p, c.Strict), want))
+						}
+					}
+				}
+			}
+			if len(seq) == 3 {
+				return
+			}
+			for _, a := range alphabet {
+				rec(append(append([]string(nil), seq...), a))
+			}
+		}
+		rec(nil)
 	case "encoded":
 		toks := []string{"/", "a", "%2F", "%20", " ", "%2f", "b", "|", "%7C"}
 		var opts []func(*rux.Router)
@@ -465,7 +511,7 @@ var c11Spec = fw.Spec[c11Case]{
 	ID:    "C11",
 	Level: "model_checking",
 	Rule: "complete enumeration: ALL strings of length <=L over {'/',' ','.','a','b',TAB} as registered path P and as request path Q - the full P x Q square in both StrictLastSlash modes (and again for all strings of <=3 characters over {'/','a',space,U+00A0,U+3000,U+0085,U+2003}) (one evaluation = one GET and one HEAD lookup of Q on a router holding GET P; reach <=> Norm(Q)==Norm(P)); " +
-		"all G x P x Q over strings of length <=3 for group prefixes and all nested G1 x G2 x P over strings of length <=2; all raw paths of <=4 tokens over {/,a,b,%2F,%2f,%20,space,|,%7C}, each with four RequestURI values (absent, equal, stale prefix, *) under both UseEncodedPath settings (directly and handed on by a front router with HandleContext); static, multi-segment and dynamic routes of every length 1..300 bytes under three methods with nine request variations each; InterceptAll(p) with the route registered as p for all strings p of length <=3, in every option order, against all requests of length <=2; non-trivial = a (P,Q) pair that must reach the route / an escaped path that differs from the decoded one",
+		"all G x P x Q over strings of length <=3 for group prefixes and all nested G1 x G2 x P over strings of length <=2; all raw paths of <=4 tokens over {/,a,b,%2F,%2f,%20,space,|,%7C}, each with four RequestURI values (absent, equal, stale prefix, *) under both UseEncodedPath settings (directly and handed on by a front router with HandleContext); all request histories of <=3 over 8 paths with and without trailing slashes on caching routers (capacity 1, 2, 8) in both StrictLastSlash modes; static, multi-segment and dynamic routes of every length 1..300 bytes under three methods with nine request variations each; InterceptAll(p) with the route registered as p for all strings p of length <=3, in every option order, against all requests of length <=2; non-trivial = a (P,Q) pair that must reach the route / an escaped path that differs from the decoded one",
 	Assume: []string{"alphabet of 6 characters; L=5 quick, 6 thorough", "net/url's EscapedPath is taken as the definition of 'the escaped path'"},
 	Bounds: func(tier string) map[string]any {
 		L := 5
